@@ -136,6 +136,8 @@ type PExtra struct {
 	Digests []uint64
 	Keys    []PElem
 	CountPos int // byte offset of the count head in the register
+	DigPos, DigEnd   int // compact maps: byte span of the digest byte string (head included)
+	KeysPos, KeysEnd int // compact maps: byte span of the key array (head included)
 }
 
 type PChildHeader struct {
@@ -493,6 +495,7 @@ func (r *rd) parseIED(p *PReg) error {
 				return err
 			}
 			if tag == 249 {
+				x.DigPos = r.p
 				dl, err := r.expect(2, "compact digests")
 				if err != nil {
 					return err
@@ -507,6 +510,8 @@ func (r *rd) parseIED(p *PReg) error {
 				for j := 0; j < len(db); j += 8 {
 					x.Digests = append(x.Digests, binary.BigEndian.Uint64(db[j:]))
 				}
+				x.DigEnd = r.p
+				x.KeysPos = r.p
 				kn, err := r.expect(4, "compact keys")
 				if err != nil {
 					return err
@@ -521,6 +526,7 @@ func (r *rd) parseIED(p *PReg) error {
 					}
 					x.Keys = append(x.Keys, k)
 				}
+				x.KeysEnd = r.p
 			}
 		default:
 			return fmt.Errorf("unexpected inlined extra data tag %d", tag)
